@@ -29,6 +29,8 @@ func (v *VerifC15) handlers(kind string) (cache.ResourceEventHandlerFuncs, bool)
 		return createAppProtectLogConfHandlers(lbc), true
 	case "dos":
 		return createAppProtectDosProtectedResourceHandlers(lbc), true
+	case "usersig":
+		return createAppProtectUserSigHandlers(lbc), true
 	case "dospolicy":
 		return createAppProtectDosPolicyHandlers(lbc), true
 	case "doslogconf":
